@@ -38,7 +38,7 @@ ASSUMPTIONS = [
     "'number of entries' of a HistFit = all entries of the data container; only containers without underflow/overflow entries are generated (whether out-of-range entries count is left open by the statement)",
     "exactness tolerance 1e-12 is relative to (bin width x max |density| at the bin's edges and centre); for the antiderivative methods also to |F| at the edges (rounding of the user's antiderivative is not kafe2's); quad: 1e-8 of the largest bin scale",
     "outside its exactness class a quadrature rule is only required to be history independent (equal to a fresh model at the same parameters and edges), to be inexact one degree above its class and to converge at its textbook order",
-    "convergence order is measured on the sum over bins of |bin content - exact integral| for 16/32/64 uniform bins",
+    "convergence order is measured on the sum over bins of |bin content - exact integral| for 32/64/128 uniform bins",
     "parameters are assigned as new list objects (in-place mutation of a list kafe2 holds is an unnotified external change)",
 ]
 
@@ -47,7 +47,7 @@ METHODS = ("rectangle", "midpoint", "trapezoid", "simpson", "numerical", "antide
 EXACT_DEGREE = {"rectangle": 1, "midpoint": 1, "trapezoid": 1, "simpson": 3}
 ORDER = {"rectangle": 2.0, "midpoint": 2.0, "trapezoid": 2.0, "simpson": 4.0}
 T_EXACT, T_NUM, T_ORDER = 1e-12, 1e-8, 0.3
-LADDER = (16, 32, 64)
+LADDER = (32, 64, 128)
 LADDER_RANGE = (0.0, 4.0)
 
 BINNINGS = collections.OrderedDict(
